@@ -324,6 +324,11 @@ func servePrincipalPropfind(w http.ResponseWriter, r *http.Request, options *Ser
 	} else if err := internal.DecodeXMLRequest(r, &propfind); err != nil {
 		return err
 	}
+	if s := r.Header.Get("Depth"); s != "" {
+		if _, err := internal.ParseDepth(s); err != nil {
+			return &internal.HTTPError{Code: http.StatusBadRequest, Err: err}
+		}
+	}
 	props := map[xml.Name]internal.PropFindFunc{
 		internal.ResourceTypeName: func(*internal.RawXMLValue) (interface{}, error) {
 			return internal.NewResourceType(principalName), nil
